@@ -98,12 +98,13 @@ Section SchemeProofs.
         exact Hun1.
   Qed.
 
-  Theorem kw_roundtrip_gen (v : variant) (cek : list N) :
+  Theorem kw_roundtrip_gen (vw v : variant) (cek : list N) :
     length cek mod 8 = 0 -> 8 <= length cek -> ok cek ->
-    exists c, kw_wrap E key cek = Ok c /\ length c = length cek + 8 /\
+    exists c, kw_wrap E vw key cek = Ok c /\ length c = length cek + 8 /\
               kw_unwrap D v key c = Ok cek.
   Proof.
-    intros Hmod Hlen Hokc. unfold kw_wrap, len. rewrite Hmod. cbn [Nat.eqb negb].
+    intros Hmod Hlen Hokc. unfold kw_wrap, len. rewrite Hmod. cbn [Nat.eqb negb orb].
+    destruct (Nat.eqb_spec (length cek) 0) as [H0|_]; [lia|]. rewrite andb_false_r.
     set (rs := chunks 8 cek).
     assert (Hrs8 : Forall (fun r => length r = 8) rs) by (apply chunks_Forall; [lia | assumption]).
     assert (Hokrs : Forall (fun r => ok r) rs) by now apply forallb_chunks.
@@ -147,6 +148,24 @@ Section SchemeProofs.
     replace (eqb_listN kw_iv kw_iv) with true by (symmetry; apply eqb_listN_spec; reflexivity).
     cbn [negb]. destruct rs as [|r0 rs0]; [cbn [length] in *; lia|].
     now rewrite Hcat.
+  Qed.
+
+  (* current tree: WHATEVER Wrap returns, Unwrap turns back into the key data - no side
+     condition on the length (empty key data and partial blocks are errors of Wrap) *)
+  Theorem kw_wrap_unwrap_gen (v : variant) (cek c : list N) :
+    ok cek -> kw_wrap E Fixed key cek = Ok c -> kw_unwrap D v key c = Ok cek.
+  Proof.
+    intros Hok Hw.
+    assert (Hlen : length cek mod 8 = 0 /\ 8 <= length cek).
+    { unfold kw_wrap, len in Hw. cbn [is_fixed andb] in Hw.
+      destruct (Nat.eqb_spec (length cek mod 8) 0) as [Hm|]; cbn [negb orb] in Hw; [|discriminate].
+      destruct (Nat.eqb_spec (length cek) 0) as [|Hn]; [discriminate|].
+      split; [exact Hm|].
+      destruct (Nat.le_gt_cases 8 (length cek)) as [|Hlt]; [assumption|].
+      rewrite Nat.mod_small in Hm by lia. lia. }
+    destruct Hlen as [Hm Hl].
+    destruct (kw_roundtrip_gen Fixed v cek Hm Hl Hok) as (c' & Hw' & _ & Hu).
+    rewrite Hw in Hw'. congruence.
   Qed.
 
   (* --------------------------------------------------------------------------------- *)
